@@ -128,7 +128,10 @@ CHECKS = {
         "ending run parses exactly the items the item-wise loop finds from fresh states, its node events and errors are theirs in order; the events, "
         "errors, identities and call depth accumulated before an item cannot influence it, the look-ahead counter only towards the `parser is stuck` guard) "
         "and C03_module (the conditional theorem for the run itself: events and errors of the damaged file's run = root, the undamaged file's items in front, "
-        "the victim's, post's own items, root). The item-wise view of the loop is additionally compared with the "
+        "the victim's, post's own items, root). At the level of TREES (Lemmas/TreeItems.lean): runEvs_embed (frame rule of the tree builder: what a balanced event segment does from an empty builder it does, unchanged, inside any context), "
+        "buildTree_forests, tree_is_items (for every normally ending run, and the shape of policy glas_policyShape decides for the regenerated build_tree, the syntax tree is the root with the leading tokens, then the FORESTS of the items - each "
+        "built from the item's own events by an empty builder on the raw tokens the previous item left - then the trailing tokens) and C03_tree (under containment the damaged file's tree has, between leading and trailing tokens, the forests "
+        "built from the very events of the undamaged file's items in front, the victim's, and those of post's own items). The item-wise view of the loop is additionally compared with the "
         "implementation's top-level nodes on ~600 damaged and undamaged files per run. Hence damage confined to one definition cannot "
         "change the others PROVIDED the damaged definition's parse stops at its own end; that containment is NOT proved (it is false on the "
         "current tree in 7 recovery sites, recorded as known findings) and is evaluated on the implementation: files of 2-4 reference-grammar "
